@@ -55,6 +55,14 @@ def code_shapes(batch, sid):
     return out
 
 
+def shape_causes(shapes, panicked):
+    """one cause per generated-code shape that can explain the outcome: a panic comes from the array shapes
+    (index into the shadowed empty slice, append through a nil pointer), an error return from the map shape"""
+    if panicked:
+        return ["panic:" + s for s in shapes if "array" in s]
+    return [s for s in shapes if "map" in s]
+
+
 def has_dup(doc):
     if isinstance(doc, srcgen.DupObj):
         return True
@@ -285,18 +293,19 @@ def run(ctx, verdict, replay=None, model_ok=True):
         j = camp.jobs[i]
         shapes = code_shapes(batch, j["sid"])
         panicked = any(x["strict"] == "panic" for x in camp.results[i]["res"])
-        if panicked:
-            cause = "panic:" + ("+".join(s for s in shapes if "array" in s) or "other")
-        elif any(has_fraction_zero(d) for d in j["docs"]) and not shapes:
-            cause = "integer-written-with-fraction"
-        elif shapes:
-            cause = "+".join(shapes)
-        elif "stress" in (j["meta"].get("faults") or []):
-            cause = "stress-document"
-        else:
-            cause = "other"
-        report({"part": "strict", "kind": "rejects-document-meeting-the-four-conditions", "cause": cause}, i,
-               {"predicate": "pf_strict_overreject: strict_ok = true but UnmarshalJSONStrict failed"})
+        causes = shape_causes(shapes, panicked)
+        if not causes:
+            if panicked:
+                causes = ["panic:other"]
+            elif any(has_fraction_zero(d) for d in j["docs"]):
+                causes = ["integer-written-with-fraction"]
+            elif "stress" in (j["meta"].get("faults") or []):
+                causes = ["stress-document"]
+            else:
+                causes = ["other"]
+        for cause in causes:
+            report({"part": "strict", "kind": "rejects-document-meeting-the-four-conditions", "cause": cause}, i,
+                   {"predicate": "pf_strict_overreject: strict_ok = true but UnmarshalJSONStrict failed"})
     for i in by_size(ev["PF_OVERACCEPT"]):
         j = camp.jobs[i]
         if any(has_dup(d) for d in j["pydocs"]):
@@ -316,7 +325,8 @@ def run(ctx, verdict, replay=None, model_ok=True):
     for i in by_size(ev["PF_PANIC"]):
         if i in ev["PF_OVERREJECT"]:
             continue
-        report({"part": "strict", "kind": "panic", "cause": "+".join(code_shapes(batch, camp.jobs[i]["sid"])) or "other"}, i)
+        for cause in [c_[len("panic:"):] for c_ in shape_causes(code_shapes(batch, camp.jobs[i]["sid"]), True)] or ["other"]:
+            report({"part": "strict", "kind": "panic", "cause": cause}, i)
 
     # ---- oracle-level failures (source-schema semantics, catches constraints lost by a front-end)
     oracle = {"valid_docs": 0, "valid_rejected_by_reference": 0, "faulty_docs": 0, "faulty_accepted_by_reference": 0,
@@ -348,9 +358,11 @@ def run(ctx, verdict, replay=None, model_ok=True):
                     oracle["valid_but_strict_rejects"] += 1
                     shapes = code_shapes(batch, j["sid"])
                     cause = null_required_cause(j["pydocs"][d], x.get("spaths"), fmt) if x["strict"] == "err" else None
-                    if cause is None:
-                        cause = ("panic:" if x["strict"] == "panic" else "") + ("+".join(shapes) or fmt + "-front-end-or-other")
-                    report({"part": "strict", "kind": "rejects-document-the-schema-accepts", "cause": cause}, i, {"doc_index": d})
+                    causes = [cause] if cause is not None else (
+                        shape_causes(shapes, x["strict"] == "panic") or
+                        [("panic:" if x["strict"] == "panic" else "") + fmt + "-front-end-or-other"])
+                    for cause in causes:
+                        report({"part": "strict", "kind": "rejects-document-the-schema-accepts", "cause": cause}, i, {"doc_index": d})
             else:
                 kind, path = fl
                 oracle["faulty_docs"] += 1
